@@ -111,7 +111,7 @@ def make_spec(cls, r, init, values, ending, chain):
 def run(tier):
     thorough = tier == 'thorough'
     chk = Check('C16', 'fault_enumeration', tier,
-                'six stateful worker classes x init values (None, scalars, containers, custom objects) x 0-10 child-side assignments x endings {return, exception, graceful terminate at enumerated eval-breaker points inside the work} '
+                'six stateful worker classes x init values (None, scalars, containers, custom objects) x 0-10 child-side assignments x endings {return, exception, result that cannot be pickled, graceful terminate at enumerated eval-breaker points inside the work} '
                 'x chains of <=3 restarts / re-creations; distinct non-trivial = distinct (class, ending or landing point, assignment count, chain length)')
     r = rng('c16')
     wd = workdir('c16')
@@ -125,6 +125,13 @@ def run(tier):
             chain = r.choice([0, 0, 1, 2, 3])
             spec, vio = make_spec(cls, r, init, values, ending, chain)
             jobs.append((cls, spec, init, vio, ending))
+        if 'Thread' not in cls:
+            # the work succeeds but its result cannot be sent: the child ends by itself with a failure report
+            for i in range(4 if thorough else 2):
+                init = r.choice(VALUES)
+                values = [r.choice(VALUES) for _ in range(r.choice([1, 2, 3]))]
+                spec, vio = make_spec(cls, r, init, values, 'return-unpicklable', r.choice([0, 1]))
+                jobs.append((cls, spec, init, vio, 'return-unpicklable'))
 
     def one(job):
         cls, spec, init, vio, ending = job
